@@ -1,18 +1,46 @@
 ------------------------------ MODULE StepTrace ------------------------------
-EXTENDS MARSCore, TLC, Json, IOUtils
-OpN  == <<"DAT","MOV","ADD","SUB","MUL","DIV","MOD","CMP","SEQ","SNE","SLT","JMP","JMZ","JMN","DJN","SPL","NOP">>
-ModN == <<"F","A","B","AB","BA","X","I">>
-AmN  == <<"$","#","*","@","{","<","}",">">>
-Trace == ndJsonDeserialize("steps.ndjson")
-Dec(t) == [op |-> OpN[t[1]+1], mod |-> ModN[t[2]+1], am |-> AmN[t[3]+1], a |-> t[4], bm |-> AmN[t[5]+1], b |-> t[6]]
-Core(s, M) == [i \in 0..M-1 |-> Dec(s[i+1])]
-Cap(q, p) == IF Len(q) > p THEN SubSeq(q, 1, p) ELSE q
-Check(e) ==
-  LET cfg == [M |-> e.M, RL |-> e.RL, WL |-> e.WL]
-      r == ExecTask(Core(e.pre, e.M), e.pc, cfg)
-  IN r.core = Core(e.post, e.M) /\ Cap(r.push, e.P) = e.q
+(***************************************************************************)
+(* Trace validation of single task executions recorded from the real       *)
+(* simulator (harness "steps").  One state per trace line.                 *)
+(*   Mode "C01": the recorded post core and queue equal ExecTask(pre).     *)
+(*   Mode "C11": the distance predicates of C11 evaluated on the recorded  *)
+(*               pre/post states themselves (independent of C01).          *)
+(* A line that fails prints REJECT <index>; the rest is still checked.     *)
+(***************************************************************************)
+EXTENDS Codec, TLC, Json, IOUtils
+Trace == ndJsonDeserialize(IOEnv.VERIF_TRACE)
+Mode  == IOEnv.VERIF_MODE
+
+CheckC01(e) ==
+  LET cfg  == [M |-> e.M, RL |-> e.RL, WL |-> e.WL]
+      pre  == DecCore(e.pre)
+      r    == ExecTask(pre, e.pc, cfg)
+      post == ApplyDiff(pre, e.d, 1)
+  IN /\ e.panic = ""
+     /\ r.core = post
+     /\ Cap(r.push, e.P) = e.q
+     /\ (e.alive = 1) = (r.push # << >>)
+
+CheckC11(e) ==
+  LET M == e.M
+      pre  == DecCore(e.pre)
+      post == ApplyDiff(pre, e.d, 1)
+  IN /\ e.panic = ""
+     \* every cell that differs is within floor(W/2) of the executing instruction
+     /\ \A a \in DiffAddrs(e.d) : post[a] # pre[a] => CDist(a, e.pc, M) <= e.WL \div 2
+     \* every queued successor is pc+1, pc+2 or within floor(R/2)
+     /\ \A k \in 1..Len(e.q) : \/ e.q[k] \in {(e.pc + 1) % M, (e.pc + 2) % M}
+                               \/ CDist(e.q[k], e.pc, M) <= e.RL \div 2
+     \* limits equal to the core size have no effect at all
+     /\ (e.RL = M /\ e.WL = M) =>
+           LET r == ExecTaskNoFold(pre, e.pc, M) IN r.core = post /\ Cap(r.push, e.P) = e.q
+
+Check(e) == IF Mode = "C11" THEN CheckC11(e) ELSE CheckC01(e)
+
 VARIABLE l
 Init == l = 1
-Next == l <= Len(Trace) /\ Check(Trace[l]) /\ l' = l + 1
+Next == /\ l <= Len(Trace)
+        /\ l' = l + 1
+        /\ IF Check(Trace[l]) THEN TRUE ELSE PrintT(<<"REJECT", l>>)
 Accepted == TLCGet("stats").diameter - 1 = Len(Trace)
 =============================================================================
